@@ -24,6 +24,8 @@ MCTiny  == {"r_eof", "ok_ka", "ok_close", "short", "r302_ka"}
 MCDispAll == {"read", "read2rel", "release", "drain", "close", "stream"}
 MCDispSmall == {"read", "release", "close", "stream"}
 MCNoDefects == {}
+MCTraitsNone == {}
+MCTraitsOldRelease == {"ReleaseLeavesUnfinishedOpen"}
 MCD14 == {"D14"}
 MCMutCloseNoRelease == {"M_CloseNoRelease"}
 MCMutFinallyNoRelease == {"M_FinallyNoRelease"}
